@@ -30,7 +30,8 @@ def plan(tier):
         t.append({'kind': 'start', 'start': s})
         c = history.start(s)
         for op in history.menu(c, 'full'):
-            t.append({'kind': 'sub', 'start': s, 'prefix': [op], 'depth': depth(tier), 'level': 'full' if tier == 'quick' else ['full', 'lite', 'nocomp']})
+            d = depth(tier) if s in ('S0', 'S1', 'S4', 'S8') else 2  # depth 3 (thorough) from the four smallest start states
+            t.append({'kind': 'sub', 'start': s, 'prefix': [op], 'depth': d, 'level': 'full' if d == 2 else ['full', 'lite', 'nocomp']})
     return t
 
 
@@ -42,13 +43,13 @@ def describe(tier):
         'delete/remove_block, into_bench, copy, connect_circuit (left: every duplicate-free tuple of the attached '
         "circuit's inputs x every tuple of base gates; right: every duplicate-free tuple of base inputs x every tuple of "
         'attached gates) and its wrappers with 3 attached circuits and naming/prefix options; invalid-argument calls '
-        'included and required to raise) from 5 start states (empty; AND; NOT chain + repeated operand + block + output '
+        'included and required to raise) from 7 start states (empty; AND; NOT chain + repeated operand + block + output '
         'that is an input; after a right-connection; GT(x,x)/LNOT with repeated outputs). Invariant on every distinct '
         'state: operands/outputs exist, users index == operand multiset, inputs == INPUT gates, acyclic, top_sort both '
         'directions complete and ordered, evaluate_full_circuit/get_truth_table/dfs complete and equal to the reference evaluation of the current netlist (the circuit is queried before every mutation, so remembered results would be stale), blocks name existing gates; copy monitor: '
         'copy == original, blocks equal, mutating either side leaves the other unchanged.',
         'bounds': {'quick': 'depth 2 from each start state, full menu',
-                   'thorough': 'depth 3: step 1 full menu, step 2 one naming option for compositions, step 3 all non-composition calls'}[tier],
+                   'thorough': 'depth 3 from the four smallest start states (step 1 full menu, step 2 one naming option for compositions, step 3 all non-composition calls), depth 2 from the others'}[tier],
         'exhaustive': True,
         'assumptions': ['state canonicalisation reads the raw users index (finer than public observation, never coarser)'],
     }
